@@ -95,7 +95,7 @@ fn ll_grammar_core(rng: &mut Rng, i: usize) -> G {
             // a random function from the strings of length k over a small alphabet to 2-3 productions:
             // NA: NB; NB: P1 | P2 [| P3]; Pi: the strings mapped to i. The lookahead tries have many inner states with
             // permuted / crossed assignments, which is what minimisation has to keep apart.
-            let (nsym, k) = if rng.chance(1, 2) { (2usize, rng.range(2, 3)) } else { (3usize, 2usize) };
+            let (nsym, k) = [(2usize, 2usize), (2, 3), (2, 3), (3, 2), (3, 3), (2, 4)][rng.below(6)];
             let np = rng.range(2, 3);
             let mut strs: Vec<Vec<u16>> = vec![vec![]];
             for _ in 0..k { strs = strs.iter().flat_map(|s| (0..nsym).map(move |c| { let mut x = s.clone(); x.push(5 + c as u16); x })).collect(); }
